@@ -63,30 +63,44 @@ def run(ctx):
         ctx.nontrivial.add(repr(c15.brief(h)))
         n += 1
     ctx.extra["palette_behaviours_replayed"] = n
-    # (V)
+    # (V) two live objects per trace: a palette update on one must not recolour the other
     trs = []
     for i in range(ctx.pick(25, 150)):
-        seq = common.random_sequences(ctx.rng, 1, ctx.pick(120, 300), 1)[0]
-        if i % 5 == 0:
-            seq = (seq * 40)[:ctx.rng.choice([1, 9, 10, 11, 49, 50, 51, 99, 100, 101, 150, 151])]
-        o = lc.SP(seq)
-        ev = [{"kind": "construct", "obj": 1, "seq": list(seq), "post": {"objs": [objmodel.project(o)], "spGrps": 0}}]
-        for _ in range(ctx.rng.randint(1, 5)):
-            if ctx.rng.random() < 0.55:
+        objs = {}
+        ev = []
+
+        def post():
+            return {"objs": [objmodel.project(objs[k]) if k in objs else {"alive": False} for k in (1, 2)], "spGrps": 0}
+        for k in (1, 2):
+            seq = common.random_sequences(ctx.rng, 1, ctx.pick(120, 300), 1)[0]
+            if (i + k) % 5 == 0:
+                seq = (seq * 40)[:ctx.rng.choice([1, 9, 10, 11, 49, 50, 51, 99, 100, 101, 150, 151])]
+            if (i + k) % 4 == 0 and "C" not in seq:
+                seq = seq[:len(seq) // 2] + "C" + seq[len(seq) // 2 + 1:]
+            objs[k] = lc.SP(seq)
+            ev.append({"kind": "construct", "obj": k, "seq": list(seq), "post": post()})
+        ok = True
+        for _ in range(ctx.rng.randint(2, 6)):
+            k = ctx.rng.choice((1, 2))
+            o = objs[k]
+            if ctx.rng.random() < 0.5:
                 d = c15.random_palette(ctx.rng)
                 out = common.call(o.set_HTMLColorResiduePalette, d)
-                j = c15.pal_json(d)
+                j_ = c15.pal_json(d)
                 d[ctx.rng.choice(common.AA)] = "white"
-                ev.append({"kind": "set_palette", "obj": 1, "arg": j, "accepted": out[0] == "ok", "post": {"objs": [objmodel.project(o)], "spGrps": 0}})
+                ev.append({"kind": "set_palette", "obj": k, "arg": j_, "accepted": out[0] == "ok", "post": post()})
+                k = ctx.rng.choice((1, 2))
+                o = objs[k]
             html = common.call(o.get_HTMLColorString)
             ctx.evaluations += 1
             toks = tokenise(html[1]) if html[0] == "ok" else None
             if toks is None:
-                ctx.violation("html-unparseable", {"seq": seq}, expected="<p> wrapper around spaces, <br> and coloured spans", actual=html if html[0] != "ok" else html[1][:300])
+                ctx.violation("html-unparseable", {"seq": o.get_sequence()}, expected="<p> wrapper around spaces, <br> and coloured spans", actual=html if html[0] != "ok" else html[1][:300])
+                ok = False
                 break
-            ev.append({"kind": "html", "obj": 1, "reply": "x", "fresh": "x", "toks": toks, "post": {"objs": [objmodel.project(o)], "spGrps": 0}})
+            ev.append({"kind": "html", "obj": k, "reply": "x", "fresh": "x", "toks": toks, "post": post()})
         trs.append({"tid": i + 1, "ev": ev})
-    c15.validate_histories(ctx, trs, 1)
+    c15.validate_histories(ctx, trs, 2)
     ctx.sample({"trace": [{"kind": e["kind"], "accepted": e.get("accepted")} for e in trs[0]["ev"]]})
     ctx.sample({"tokens": trs[0]["ev"][-1].get("toks", [])[:6]})
     defaults.reset()
